@@ -90,6 +90,14 @@ def fam_fuel_heat(T, thorough=False):
             out.append(uc_cfg(cid, T, lo=1, hi=2, minrun=mr, mindown=md, run0=init[0], off0=init[1], last0=init[2], startcost=1,
                               heat=heat, conv=conv, share=share, fuel=fuel, feff=feff, fuelon=1 if fuel else 0, fuelstart=2 if fuel else 0,
                               ramp=1 if cid % 2 else -1))
+            if fuel and (mr, md) == (0, 0):
+                # start fuel as the ONLY reason for start variables (no start costs, no minimum times), and consumption when on without start fuel
+                cid += 1
+                out.append(uc_cfg(cid, T, lo=1, hi=2, run0=init[0], off0=init[1], last0=init[2], startcost=0, heat=heat, conv=conv, share=share, fuel=True, feff=feff,
+                                  fuelon=0, fuelstart=2))
+                cid += 1
+                out.append(uc_cfg(cid, T, lo=1, hi=2, run0=init[0], off0=init[1], last0=init[2], startcost=0, heat=heat, conv=conv, share=share, fuel=True, feff=feff,
+                                  fuelon=1, fuelstart=0))
     return out
 
 
@@ -332,7 +340,8 @@ def uc_trace(real, res, K=1000, tol=3):
         steps.append(dict(on=bool(on), start=bool(stf), p=REC.fx(p, K), h=REC.fx(h, K),
                           rfuel=REC.fx(real.fuel_flow(x, t) * c['feff'][0] * cd, K)))
     coef = (max(abs(v) for v in c['price']) + c['runcost'] * c['d'] + max(c['startcost']) + c['fuelon'] * c['d'] + c['fuelstart'] + 2) * cd * c['T'] * 4 * max(c['feff'])
-    return dict(cfg=c, K=K, tol=tol, vtol=int(tol * coef + 2), chkflag=bool(c['startcost'][0] > 0 or c['fuelstart'] > 0), steps=steps,
+    # a start flag without transition is judged only where it costs money: in the stand-alone plant problem fuel has no price
+    return dict(cfg=c, K=K, tol=tol, vtol=int(tol * coef + 2), chkflag=bool(c['startcost'][0] > 0), steps=steps,
                 rval=REC.fx(float(res.value) * cd, K))
 
 
